@@ -3,7 +3,10 @@ package c03
 import (
 	"bytes"
 	"context"
+	"errors"
 	"fmt"
+	"sync"
+	"sync/atomic"
 	"time"
 
 	"github.com/plgd-dev/go-coap/v3/message"
@@ -263,4 +266,64 @@ func responseOfAnAbandonedRequest(rec *vr.Rec, reps int) {
 			rec.Count("next_requests_got_their_own_response", 1)
 		}
 	}
+}
+
+// equalTokenCrowd: many callers (not two) issue a request with ONE caller-chosen token from a barrier while the peer stays
+// silent for the whole round. The token is outstanding from the first admitted request until the harness ends the round, so
+// every further transmission with that token is a second request accepted on an outstanding token - whatever the order
+// in which the callers arrived. The verdict is a count of what was put on the wire, not a time.
+func equalTokenCrowd(rec *vr.Rec, kind string, blockwise bool, rounds, callers int) {
+	c := ccase{Kind: kind, Blockwise: blockwise, Callers: callers, Tokens: "equal", Policy: "silent"}
+	e := newEnv(kind, blockwise, 16)
+	defer e.cc.Close()
+	witnesses := 0
+	for it := 0; it < rounds && witnesses < 4; it++ {
+		tok := []byte{0xc7, byte(it), byte(it >> 8), 0x33, byte(callers)}
+		var wg sync.WaitGroup
+		var start atomic.Bool
+		var admitted, rejected atomic.Int32
+		// the admitted call stays outstanding until the harness ends the round: a caller the scheduler lets in late
+		// still meets an outstanding token (a deadline of the callers' own would let a late one in legitimately)
+		ctx, cancel := context.WithCancel(context.Background())
+		for i := 0; i < callers; i++ {
+			wg.Add(1)
+			go func(i int) {
+				defer wg.Done()
+				req := e.cc.AcquireMessage(ctx)
+				_ = req.SetupGet("/crowd", tok)
+				for !start.Load() {
+				}
+				resp, err := e.cc.Do(req)
+				e.cc.ReleaseMessage(req)
+				if err == nil {
+					e.cc.ReleaseMessage(resp)
+				}
+				if errors.Is(err, context.Canceled) {
+					admitted.Add(1)
+				} else {
+					rejected.Add(1)
+				}
+			}(i)
+		}
+		start.Store(true)
+		sim.WaitFor(2*time.Second, func() bool { return int(rejected.Load()) >= callers-1 })
+		refusedBeforeEnd := rejected.Load()
+		onWire := 0
+		for _, m := range e.sent() {
+			if m.Code == 1 && bytes.Equal(m.Token, tok) {
+				onWire++
+			}
+		}
+		cancel()
+		wg.Wait()
+		rec.Count("equal_token_crowd_rounds", 1)
+		rec.Count("equal_token_crowd_refused_while_outstanding", int64(refusedBeforeEnd))
+		if onWire > 1 {
+			witnesses++
+		}
+		if onWire > 1 { // housekeeping is owned by the harness and never runs here: no copy is a retransmission
+			rec.Violation("C03/"+kind+"/equal-token/second-request-accepted", fmt.Sprintf("%d callers, silent peer: %d requests with the one token were transmitted (%d calls were refused while the round lasted)", callers, onWire, refusedBeforeEnd), c)
+		}
+	}
+	rec.EvalN(int64(rounds), fmt.Sprintf("equal-crowd|%s|%v|%d", kind, blockwise, callers))
 }
